@@ -31,6 +31,10 @@ HAND = [
  (["param (p, q)\nw := 7", "return [p, q, w]"], "return [p, q, w]"),
  (["param (p, ...q)\nc := 1\nreturn [p, q, c]", "return [p, q, c]"], "return [p, q, c]"),
  (["param (...q)\nc := 1", "return [q, c]"], "return [q, c]"),
+ # a literal constant of an earlier fragment, and the same name bound again in a nested scope of a later fragment
+ (["const a = 5", "f := func(a) { return a * 2 }", "return f(10)"], "return [a, f(1)]"),
+ (["const a = 5\nconst b = \"s\"", "s := 0\nfor a in [1, 2] { s += a }\nreturn s", "g := func() { b := 3; return b + 1 }\nreturn [g(), a + 1]"], "return [a, b, s, g()]"),
+ (["const (\n  k0 = iota\n  k1\n)", "h := func(k1, ...k0) { return [k1 + 1, k0] }\nreturn h(7, 8)", "return [k0, k1, -k1]"], "return [k0, k1, h(1)]"),
  # function literals with the same text are different functions, in one script as in two fragments
  (["f := func(a) { return a + 1 }", "g := func(a) { return a + 1 }", "return [f == g, f != g, [f] == [g], f(1), g(2)]"], "return [f == g, {k: f} == {k: g}]"),
  (["f := func(a) { return a + 1 }\ng := func(a) { return a + 1 }", "h := func(a) { return a + 1 }\nreturn [f == g, f == h, g != h]"], "return [f == g, f == h, f == f]"),
